@@ -16,6 +16,8 @@ RULE = (
     "1..3 readings each, keys/readings declared out of order; thorough: + declaration-order permutations) + OPS with an "
     "identity and a nonlinear sensor; CSE on and off; full dyadic grid; one evaluation = one process_jacobian / "
     "control_jacobian / sensor_jacobian call compared entry-by-entry with forward-mode derivatives of our own AST. "
+    "Also definitions whose symbols carry sympy assumptions (all symbols real; only some; finite) and a block-size sweep "
+    "(Jacobian blocks of 1..64 entries, dense rows, rows with more temporaries than entries). "
     "distinct = distinct definition records; non-trivial = some Jacobian entry depends on the evaluation point."
 )
 ASSUMPTIONS = [
@@ -39,6 +41,12 @@ def cases(tier, seed):
     per = 2 if tier == "quick" else 3
     defs = space.family_bind(tier, with_sensors=True)
     defs += [with_sensors(d) for d in space.family_ops(tier) if len(d["state"]) == 2]
+    # symbols declared with sympy assumptions (Symbol("x", real=True) is not the object Symbol("x")): all of them, or only some
+    b = space.family_bind("quick", with_sensors=True)
+    defs += [space.assumed(b[13]), space.assumed(b[26]), space.assumed(b[22], ["x", "w"]), space.assumed(b[17], ["y", "k"], "finite"),
+             space.assumed(b[27])]
+    # block-size sweep: Jacobian blocks of 1..64 entries, rows with more temporaries than entries
+    defs += space.family_sizes(tier)
     for d in defs:
         nsym = len(d["state"]) + len(d["control"])
         yield {"def": d, "per_symbol": per if nsym <= 4 else 2, "seed": seed, "dts": [0.125, -0.25]}
